@@ -51,6 +51,10 @@ func runC02(c *core.Ctx) {
 		exhaustiveTree(c, p.label, p.mk, p.k, 400000, func(m *KVMon[int, int]) { m.Nav = true }, nil)
 		return
 	}
+	if h := c.Index - len(exhaustivePlans(c.Tier)); h >= 0 && h < hugeCases {
+		runHugeTree(c, h, hugeN(c.Tier), func(m *KVMon[int, int]) { m.Nav = true })
+		return
+	}
 	kind := navKinds[c.Index%len(navKinds)]
 	strKeys := (c.Index/len(navKinds))%5 == 4
 	if kind == "TreeSet" {
